@@ -512,8 +512,8 @@ def check_property(pid, tier, seed):
                     if "WARNING: DATA RACE" in err:
                         rep = err[err.index("WARNING: DATA RACE"):][:3000]
                         hdr = {"property": pid, "stream": rc_["stream"], "binary": "kdrive-race", "seed": sd, "n": nrace, "regen": "1", "kind": "race",
-                               "detail": "the Go race detector reports a data race while proposals are built / checked: " + rep.replace("\n", " | "),
-                               "theorem": "Goat.C08.no_conflicting_access",
+                               "detail": rc_.get("what", "the Go race detector reports a data race while proposals are built / checked") + ": " + rep.replace("\n", " | "),
+                               "theorem": rc_.get("theorem", "Goat.C08.no_conflicting_access"),
                                "how": "cd harness && go build -race -tags verif -o ../.build/kdrive-race ./cmd/kdrive && ../.build/kdrive-race -stream %s -seed %d -n %d" % (rc_["stream"], sd, nrace)}
                         path = write_replay(pid, "race", hdr, [])
                         violations.append((path, ""))
